@@ -17,7 +17,7 @@ RULE = ('`python -m pyx12.scripts.x12norm` is run as a subprocess (one process p
         'Every sixth step the last 2-3 inputs are also normalised in ONE invocation (separate arguments in place, to stdout, or through a glob pattern in place); each result must equal the single-file run. non-trivial = distinct (document, option set) pairs; for the repair part those with >=1 perturbed counter.')
 ASSUMPTIONS = ['input files are ASCII (the tool opens files as ASCII by design); --output with several input files (each overwrites the last) is not judged',
                'a segment without any element is not generated (format() writes "SE*~" for "SE~")', 'the exit status and log lines on stderr are not judged']
-REQUIRED_COUNTERS = ['inputs:longer-than-one-read-buffer:inplace', 'inputs:longer-than-one-read-buffer:output', 'inputs:longer-than-one-read-buffer:stdout', 'invocations', 'mode:stdout', 'mode:output', 'mode:inplace', 'opt:eol', 'opt:fixcounting', 'idempotence-checked', 'repairs-checked', 'perturbed-counters', 'inputs:line-break-character-as-terminator', 'inputs:terminator-at-read-boundary', 'multi-file-invocations', 'multi-file:later-output-shorter', 'multi-file:inplace', 'multi-file:stdout', 'multi-file:inplace-glob']
+REQUIRED_COUNTERS = ['inputs:longer-than-one-read-buffer:inplace', 'inputs:longer-than-one-read-buffer:output', 'inputs:longer-than-one-read-buffer:stdout', 'invocations', 'mode:stdout', 'mode:output', 'mode:inplace', 'opt:eol', 'opt:fixcounting', 'idempotence-checked', 'repairs-checked', 'perturbed-counters', 'inputs:line-break-character-as-terminator', 'inputs:terminator-at-read-boundary', 'inputs:trailer-whose-true-count-is-zero', 'multi-file-invocations', 'multi-file:later-output-shorter', 'multi-file:inplace', 'multi-file:stdout', 'multi-file:inplace-glob']
 MIN_CASES = {'quick': 120, 'thorough': 3000}
 WATCHDOG_S = {'quick': 1200, 'thorough': 7200}
 
@@ -252,6 +252,26 @@ def run(ctx):
             if terms[0] in '\r\n':
                 ctx.count('inputs:line-break-character-as-terminator')
             text = doc.text(terms[0], terms[1], terms[2], brk)
+            if fix and rng.random() < 0.25:
+                # a functional group without any transaction set (GE declares 1, the true count is 0) in front of the last IEA, whose own count is
+                # thereby one short; or an interchange without any group appended (IEA declares 1): repairs whose right value is ZERO
+                unit = terms[0] + brk
+                segs_ = text.split(unit)
+                gs_ = next((x for x in segs_ if x.startswith('GS' + terms[1])), None)
+                isa_ = segs_[0]
+                if gs_ is not None and rng.random() < 0.6:
+                    g = gs_.split(terms[1])
+                    g[6] = '987654'
+                    j_ = max(i2 for i2, x in enumerate(segs_) if x.startswith('IEA' + terms[1]))
+                    segs_[j_:j_] = [terms[1].join(g), terms[1].join(['GE', '1', '987654'])]
+                    nper += 2
+                else:
+                    i_ = isa_.split(terms[1])
+                    i_[13] = '000000999'
+                    segs_[-1:-1] = [terms[1].join(i_), terms[1].join(['IEA', '1', '000000999'])]
+                    nper += 1
+                text = unit.join(segs_)
+                ctx.count('inputs:trailer-whose-true-count-is-zero')
             if big and brk and len(text) > 9000:
                 # a filler segment sized so that a terminator is the last character of the reader's first buffer fill (106 + 8192) and its line break
                 # arrives with the next read; every other time the boundary falls between CR and LF
